@@ -246,6 +246,11 @@ def register(reg):
         it.emit(st, "time.monotonic", node, value=t)
         return t
 
+    @reg.intrinsic("time.sleep")
+    def time_sleep(it, st, args, kwargs, node):
+        it.emit(st, "time.sleep", node, seconds=args[0] if args else kwargs.get("secs", NONE))
+        return NONE
+
     # ---- ssl helpers ------------------------------------------------------------------------
     @reg.intrinsic("httpcore._ssl.default_ssl_context")
     def default_ctx(it, st, args, kwargs, node):
